@@ -28,12 +28,15 @@ def _val(fam, i, j, nc):
     return 0 if (i + j) % 2 == 0 else 2
 
 
+UNIT = 1.0      # block entries are the spec's integers times UNIT (a power of two per behaviour: the same matrix in other units, exact sums)
+
+
 def _dense_block(fam, nr, nc):
     b = np.zeros((nr, nc))
     for i in range(nr):
         for j in range(nc):
             b[i, j] = _val(fam, i, j, nc)
-    return b
+    return b * UNIT
 
 
 LAYOUT_RNG = None      # set by run(): the same logical block arrives in different memory layouts
@@ -65,7 +68,7 @@ def _layout(d, rng):
     if k == 6:                                   # columns reversed in a transposed array
         B = np.ascontiguousarray(d.T[::-1])
         return B[::-1].T
-    return np.array(d.tolist(), dtype=np.int64) if np.all(d == np.round(d)) else d      # integer dtype
+    return np.array(d.tolist(), dtype=np.int64) if (np.all(d == np.round(d)) and np.max(np.abs(d), initial=0.0) < 2 ** 50) else d      # integer dtype
 
 
 def _none(v):
@@ -118,7 +121,7 @@ def _acc_array(acc, shape):
     a = np.zeros(shape)
     for (i, j), v in acc.items():
         a[i, j] = v
-    return a
+    return a * UNIT
 
 
 def _conversions(coo):
@@ -145,7 +148,7 @@ def apply_write(coo, last, rng, held=None):
         coo[r, c] = None
         return "ok"
     if op == "vector":
-        v = np.array([_val(last["fam"], 0, j, last["n"]) for j in range(last["n"])], dtype=float)
+        v = np.array([_val(last["fam"], 0, j, last["n"]) for j in range(last["n"])], dtype=float) * UNIT
         try:
             coo[r, c] = v
         except Exception:
@@ -165,9 +168,11 @@ def replay_behaviour(states, ctx, rng, tag):
     """states: list of spec states, states[0] the initial one.  Returns number of writes replayed."""
     from cardillo.utility.coo_matrix import CooMatrix
 
+    global UNIT
+    UNIT = rng.choice([1.0, 1.0, 2.0 ** -60, 2.0 ** 40])
     shape = tuple(states[0]["shape"])
     coo = CooMatrix(shape)
-    hist = []
+    hist = [{"unit": UNIT}]
     n = 0
     held = {"kid": None}
     for st in states[1:]:
